@@ -35,7 +35,7 @@ def main(tier, replay, t0):
         for o in spec.overrides:
             cells[(o["ty"], o.get("id") is not None, o.get("default") is not None)] = 1
         for x in c.cfgs:
-            base = {"wgsl": c.wgsl, "options": x["opt"], "overrides": spec.overrides}
+            base = {"case_id": c.id, "wgsl": c.wgsl, "options": x["opt"], "overrides": spec.overrides}
             if c.gen[x["id"]].get("result") != "ok":
                 continue
             if not camp.module_ok(c.id, x["id"]):
@@ -117,7 +117,7 @@ def main(tier, replay, t0):
             calls += 1
             m = by_variant[o["variant"]]
             want = {k: hex_f64(v) for k, v in m["expected"].items()}
-            rp = {"wgsl": c.wgsl, "options": x["opt"], "map": m["map"], "naga": o}
+            rp = {"case_id": c.id, "wgsl": c.wgsl, "options": x["opt"], "map": m["map"], "naga": o}
             if not o["ok"]:
                 # naga refuses the map the generated code produced
                 viol.append(Violation("naga-rejects-map", o["err"].split(":")[0][:40],
